@@ -149,10 +149,12 @@ def guarded_check(s, timeout_ms, *assumptions):
         t.cancel()
 
 
-def check(assertions, timeout_ms=10000):
+def check(assertions, timeout_ms=10000, seed=None):
     """Return ('sat', model) | ('unsat', None) | ('unknown', reason)."""
     s = z3.Solver()
     s.set("timeout", timeout_ms)
+    if seed is not None:
+        s.set("random_seed", seed)
     for a in assertions:
         s.add(a)
     r = guarded_check(s, timeout_ms)
